@@ -25,8 +25,8 @@ MANIFEST = {
     'technique': 'deductive: VCs from the real AST of Pathway.wrapped_sites/frac_sites, optimal_path, optimal_percolating_path with a loop '
                  'invariant; z3; finite-scope counter-models replayed natively; bounded brute-force all-simple-paths oracle as stand-in',
 }
-UNITS = ['unit_wrap', 'unit_frac', 'unit_dispatch', 'unit_percolate']
-BOUNDED = ['bounded_wrap', 'bounded_paths', 'bounded_purity']
+UNITS = ['unit_wrap', 'unit_frac', 'unit_dispatch', 'unit_percolate', 'unit_plumbing']
+BOUNDED = ['bounded_wrap', 'bounded_paths', 'bounded_purity', 'bounded_plumbing']
 META = {
     'clauses': {'C10.wrap': 'P', 'C10.dispatch': 'P (minmax-energy: known finding)', 'C10.valid': 'A (networkx) + P (glue)',
                 'C10.minimal': 'A (networkx) + B', 'C10.perc.stop/min': 'P + A per peak', 'C10.graph': 'B (this round)'},
@@ -711,3 +711,14 @@ from verif.native.purity import make_bounded as _make_purity  # noqa: E402
 from verif.props.purity_reg import REG as _PURITY_REG  # noqa: E402
 PURITY = _PURITY_REG['C10']
 bounded_purity = _make_purity('C10', PURITY)
+
+
+# plumbing around the anchored functions: forwarding contracts of the public wrappers, no state shared between calls or objects
+from verif.props import plumbing as _plumbing  # noqa: E402
+
+
+def unit_plumbing(tier):
+    return _plumbing.unit_plumbing(PROPERTY)
+
+
+bounded_plumbing = _plumbing.make_bounded(PROPERTY)
